@@ -264,9 +264,28 @@ def hypot(a, b):
     return sqrt(a * a + b * b) if (_sym(a) or _sym(b)) else math.hypot(a, b)
 
 
+def isclose(a, b, *, rel_tol=1e-09, abs_tol=0.0):
+    """math.isclose: |a - b| <= max(rel_tol * max(|a|, |b|), abs_tol)"""
+    if not (_sym(a) or _sym(b) or _sym(rel_tol) or _sym(abs_tol)):
+        return math.isclose(a, b, rel_tol=rel_tol, abs_tol=abs_tol)
+    a, b = _real(a), _real(b)
+    rt = core.LitFloat(rel_tol) if isinstance(rel_tol, float) and not isinstance(rel_tol, core.LitFloat) else rel_tol
+    at = core.LitFloat(abs_tol) if isinstance(abs_tol, float) and not isinstance(abs_tol, core.LitFloat) else abs_tol
+    d = abs(a - b)
+    return bool(d <= at) or bool(d <= rt * abs(a)) or bool(d <= rt * abs(b))
+
+
+def copysign(x, y):
+    if not (_sym(x) or _sym(y)):
+        return math.copysign(x, y)
+    ax = abs(_real(x))
+    yy = _real(y)
+    return ax if bool(yy >= 0) else -ax      # (a negative zero second argument is outside the R-model)
+
+
 MATH_SHADOWS = {}
 for _n in ('sin cos tan atan atan2 asin acos sinh cosh log exp sqrt radians degrees fabs floor ceil '
-           'isnan isinf hypot').split():
+           'isnan isinf hypot isclose copysign').split():
     MATH_SHADOWS[getattr(math, _n)] = globals()[_n]
 
 
@@ -284,7 +303,7 @@ class MathModule:
 
 math_module = MathModule()
 for _n in ('sin cos tan atan atan2 asin acos sinh cosh log exp sqrt radians degrees fabs floor ceil '
-           'isnan isinf hypot').split():
+           'isnan isinf hypot isclose copysign').split():
     setattr(MathModule, _n, staticmethod(globals()[_n]))
 
 
